@@ -407,4 +407,32 @@ theorem verify_iff_accepted (p : Params) (hp : p ∈ allParams) (sig m pk : List
   ⟨fun hb' => by subst hb'; exact verify_true_accepted p hp sig m pk hpk hpb hb hv,
    fun hacc => accepted_verify_true p hp sig m pk hpk hb b hv hacc⟩
 
+theorem keypair_pk_length (p : Params) (hp : p ∈ allParams) (seed : Option (List Nat)) (tape : Tape) (pk sk : List Nat) (tape' : Tape)
+    (hk : keypair p seed tape = .ok (pk, sk, tape')) : pk.length = p.pkBytes := by
+  unfold keypair at hk
+  obtain ⟨⟨s, tp⟩, _, hk⟩ := bind_eq_ok.mp hk
+  simp only at hk
+  obtain ⟨⟨rho, key, s1, s2, t1, t0⟩, hcore, hk⟩ := bind_eq_ok.mp hk
+  simp only at hk
+  obtain ⟨pk0, hpk, hk⟩ := bind_eq_ok.mp hk
+  obtain ⟨tr, _, hk⟩ := bind_eq_ok.mp hk
+  obtain ⟨sk0, _, hk⟩ := bind_eq_ok.mp hk
+  injection hk with hk; injection hk with hpk0 _
+  subst hpk0
+  obtain ⟨mat, _, kf⟩ := keygen_facts p hp _ rho key s1 s2 t1 t0 hcore
+  obtain ⟨hrl, _⟩ := keygen_core_lengths p _ rho key s1 s2 t1 t0 hcore
+  obtain ⟨pk', hpk', hl, _⟩ := unpack_pack_pk p rho t1 hrl kf.t1l kf.t1s
+  rw [hpk] at hpk'; injection hpk' with hpk'; subst hpk'
+  rw [hl, pk_facts p hp]
+
+/-- **what the code signs, the specification verifies**: a signature returned by `signature` under a key from `keypair`
+    is accepted by FIPS 204 Alg. 8 / Dilithium 3.1 Verify under the matching public key and message -/
+theorem emitted_signature_spec_verifies (p : Params) (hp : p ∈ allParams) (seed : Option (List Nat)) (tape : Tape) (pk sk : List Nat) (tape' : Tape)
+    (hk : keypair p seed tape = .ok (pk, sk, tape'))
+    (fuel : Nat) (msg : List Nat) (randomized : Bool) (tape2 : Tape) (sig : List Nat) (tape3 : Tape)
+    (hs : signature p fuel msg sk randomized tape2 = .ok (some sig, tape3))
+    (hpb : ∀ b ∈ pk, b < 256) (hb : ∀ b ∈ sig, b < 256) : IsAccepted p pk msg sig := by
+  have hv := (Complete.sign_then_verify p hp seed tape pk sk tape' hk fuel msg randomized tape2 sig tape3 hs).1
+  exact verify_true_accepted p hp sig msg pk (keypair_pk_length p hp seed tape pk sk tape' hk) hpb hb hv
+
 end DV.VerifyFips
